@@ -100,6 +100,13 @@ class SpecEval:
             a, b = self.ev(n.left, env), self.ev(n.right, env)
             if isinstance(n.op, (ast.BitAnd, ast.BitOr)) and z3.is_bool(a) and z3.is_bool(b):
                 return z3.And(a, b) if isinstance(n.op, ast.BitAnd) else z3.Or(a, b)
+            if a.sort() == sym.F or b.sort() == sym.F:
+                # floating-point arithmetic: the same uninterpreted operators the code side uses (an integer operand
+                # is converted the way a C cast converts it)
+                name = {ast.Add: "f_add", ast.Sub: "f_sub", ast.Mult: "f_mul", ast.Div: "f_div"}.get(type(n.op))
+                if name is None:
+                    raise SpecError("float operator %s" % type(n.op).__name__)
+                return sym.uf(name, sym.F, sym.F, sym.F)(self.flt(a), self.flt(b))
             a, b = self.int(a), self.int(b)
             if isinstance(n.op, ast.Add):
                 return a + b
@@ -144,6 +151,11 @@ class SpecEval:
             return t
         return t != 0
 
+    def flt(self, t):
+        if t.sort() == sym.F:
+            return t
+        return sym.uf("i2f", sym.I, sym.F)(self.int(t))
+
     def cmp(self, op, a, b):
         if z3.is_bool(a) and z3.is_bool(b):
             if isinstance(op, ast.Eq):
@@ -152,7 +164,7 @@ class SpecEval:
                 return z3.Xor(a, b)
         if a.sort() == sym.F or b.sort() == sym.F:
             if a.sort() != b.sort():
-                raise SpecError("comparing float with int")
+                a, b = self.flt(a), self.flt(b)       # an integer compared with a float is converted (C's cast)
             if isinstance(op, ast.Eq):
                 return a == b
             if isinstance(op, ast.NotEq):
@@ -254,7 +266,8 @@ class SpecEval:
                         continue
                 gv = self.ev(a, env)
                 gargs.append(gv if z3.is_bool(gv) else self.int(gv))
-            fn = sym.uf("ghost_" + f, *([g.sort() for g in gargs] + [I]))
+            # (an uninterpreted ghost whose name starts with flt_ is floating-point valued)
+            fn = sym.uf("ghost_" + f, *([g.sort() for g in gargs] + [sym.F if f.startswith("flt_") else I]))
             return fn(*gargs)
         args = [self.ev(a, env) for a in n.args]
         if f == "implies":
